@@ -31,6 +31,11 @@ CHECKS = {
             "For every collection-rooted tree of the C02 alphabet up to the node bound (quick 4, thorough 5 nodes; plus canonical-anchor trees with 3+ anchors) and the entry points from_str / from_reader / from_multiple: an independent counter over raw saphyr-parser events plus replayed events predicts events, nodes, depth, aliases, distinct anchors, scalar bytes, merge keys and documents; the BudgetReport handed to the callback and the report of check_yaml_budget must equal it field by field; for each of the 8 counters the real library must accept with limit = usage and must fail with Error::Budget of the matching kind with limit = usage-1; four alias/anchor-ratio settings around the boundary. Per-document enforcement: stateright BFS over all streams of up to N documents (quick 3, thorough 4) of 8 kinds (anchors, nesting, long scalar, merge, late type error, null...) read through read_with_options under 15 budgets derived from the maximum single-document usage and one less: the verdict list must equal the concatenation of the verdicts each document gets on its own (run twice, state counts must agree; coverage 'sometimes' properties must be discovered).",
             "Trusted: saphyr-parser events; the reference counter (120 lines; convention: every raw event counts, including stream and document markers; an alias replays the fully expanded anchored node at its depth). Thresholds only for documents that deserialize into the untyped tree with unlimited budget.",
             "DESIGN.md §3 C07"),
+    "C09": ("model_checking",
+            "exhaustive schedule enumeration: every partition of each short input's bytes into read() calls (all 2^(n-1) schedules), real entry points compared with each other",
+            "Every token string of up to N tokens (quick 3, thorough 4) over a 26-token alphabet (1/2/3/4-byte characters, LF, CR, CRLF, BOM, indicators, anchors, tags, block scalars, document markers) x 5 owned targets: from_str, from_slice, with_deserializer_from_str/slice, from_reader and with_deserializer_from_reader must return equal values or errors of the same variant at the same line/column, the reader under EVERY partition of the input bytes into read calls for inputs up to 12 (thorough 16) bytes and under chunk sizes 1,2,3,5,8,4096 beyond; a leading BOM is ignored; &str targets succeed exactly for verbatim single-line scalars, point into the input buffer and equal the owned result; visit_borrowed_str is never called for reader input. A 16-document corpus of longer inputs rides along.",
+            "Trusted: the scheduled reader (returns exactly the scheduled slice, never 0 before EOF); error identity = variant name after without_snippet + line/column.",
+            "DESIGN.md §3 C09"),
     "C12": ("model_checking",
             "bounded-exhaustive enumeration of scalar values x positions x serializer option vectors, identity round-trip oracle on the real serializer and deserializer",
             "All strings up to the length bound over a 52-symbol adversarial alphabet plus 150 look-alike words, in 12 positions (root, sequence item, nested item, map value/key, flow item/value/key, struct field, newtype/tuple variant payload, map inside sequence) under every combination of quote_all, yaml_12, prefer_block_scalars, compact_list_indent, tagged_enums x indent steps x two fold widths; all integer boundaries of every width; a complete f32 sub-lattice (thorough: all 2^32 patterns) and an f64 boundary lattice; chars, unit, options, byte arrays. Each value is serialized by the real serializer, must scan as exactly one document in saphyr-parser and must read back as the identical value; emitted floats must match the YAML float grammar.",
